@@ -286,6 +286,11 @@ func runCheck(repo, verif, id, tier string, writeLedger bool) int {
 			}
 			if writeLedger || led.Functions == nil || led.Functions[o.Func] == hashNow[o.Func] {
 				retry = append(retry, o)
+			} else if o.Result == "timeout" && led.Obls[o.Name] == "unsat" {
+				// a changed function: "unknown" (the usual answer for a broken quantified goal) goes straight to the
+				// counterexample search, but a TIMEOUT of a goal that was proved before gets the longer budget too - the
+				// slow nonlinear goals (20-30 s on the unchanged tree) must survive a harmless edit of their function
+				retry = append(retry, o)
 			}
 		}
 	}
